@@ -210,14 +210,15 @@ inductive Json where
 
 namespace Json
 
-/-- `f64 → u64` of `deserialize_counter`: accepted iff `0.0 <= v <= 2^64` (−0.0 included), then
-`as u64` (truncate toward zero, saturate). -/
+/-- `f64 → u64` of `deserialize_counter` (since /repo 5cfb47a): accepted iff `0.0 <= v < 2^64`
+(`value < u64::MAX as f64`, and `u64::MAX as f64` is 2^64; −0.0 included), then `as u64`: truncation
+toward zero – the saturating part of the cast can no longer fire. -/
 def floatCounter (negative : Bool) (m : Nat) (e : Int) : Option Nat :=
   if m = 0 then some 0
   else if negative then none
   else match e with
-    | .ofNat k => if m * 2 ^ k ≤ U64MAX + 1 then some (min (m * 2 ^ k) U64MAX) else none
-    | .negSucc k => if m ≤ (U64MAX + 1) * 2 ^ (k + 1) then some (min (m / 2 ^ (k + 1)) U64MAX) else none
+    | .ofNat k => if m * 2 ^ k ≤ U64MAX then some (m * 2 ^ k) else none
+    | .negSucc k => if m < (U64MAX + 1) * 2 ^ (k + 1) then some (m / 2 ^ (k + 1)) else none
 
 /-- `deserialize_counter` -/
 def asCounter : Json → Option Nat
